@@ -625,4 +625,5 @@ def describe(site, cx):
     n = site["node"]
     txt = hirpp.expr(n)
     txt = txt.replace("anstyle_parse::state::definitions::", "").replace("core::ops::range::", "")
+    txt = txt.replace("[RangeTo{end: ", "[Range{start: 0, end: ")        # `a[..e]` and `a[0..e]` are one site
     return txt[:110].replace(" ", "_")
